@@ -116,7 +116,22 @@ const anySeg = "*z"
 
 // genPatterns returns every pattern of exactly n segments: the first n-1 from segAlpha, the
 // last from segAlpha (with and without trailing slash) or the catch-all.
-func genPatterns(n int) []string {
+func genPatterns(n int) []string { return genPatternsOver(segAlpha, n) }
+
+// segAlphaCase: static segments that differ only in the case of a letter, next to a parameter
+var segAlphaCase = []string{"a", "A", "Ab", "aB", ":x"}
+
+// universeCase: "/" and every pattern of one or two segments over segAlphaCase
+func universeCase() []string {
+	out := []string{"/"}
+	for n := 1; n <= 2; n++ {
+		out = append(out, genPatternsOver(segAlphaCase, n)...)
+	}
+	sort.Strings(out)
+	return out
+}
+
+func genPatternsOver(segAlpha []string, n int) []string {
 	var out []string
 	var rec func(prefix string, d int)
 	rec = func(prefix string, d int) {
@@ -178,6 +193,10 @@ func genTargets() []string {
 	// path decoded once, "/%41" for "/%2541"; a captured value is a substring of it)
 	for _, sp := range []string{"a+b", "%2541"} {
 		out = append(out, "/"+sp, "/"+sp+"/", "/a/"+sp, "/"+sp+"/a", "/"+sp+"/b", "/a/"+sp+"/b", "/a/"+sp+"/", "/a/b/"+sp, "/"+sp+"/a/b", "/ab/"+sp+"/c")
+	}
+	// segments that differ from a registered static segment only in the case of a letter
+	for _, sp := range []string{"A", "Ab", "aB", "AB"} {
+		out = append(out, "/"+sp, "/"+sp+"/", "/a/"+sp, "/"+sp+"/a", "/A/"+sp, "/"+sp+"/A", "/ab/"+sp, "/"+sp+"/ab", "/Ab/"+sp, "/"+sp+"/aB/")
 	}
 	return out
 }
@@ -1023,6 +1042,9 @@ func run(c *mc.Ctx) {
 	h46 := stride(u2, 46)
 	q23 := stride(u2, 23)
 	pU2, pU23, pS40, pS30, pH46, pQ23 := compileAll(u2), compileAll(u23), compileAll(s40), compileAll(s30), compileAll(h46), compileAll(q23)
+	uc := universeCase()
+	pUC, pUC23 := compileAll(uc), compileAll(stride(uc, 23))
+	c.Extra("patterns_UC_case_variants", len(uc))
 
 	c.Extra("patterns_U2", len(u2))
 	c.Extra("patterns_U2+U3", len(u23))
@@ -1042,6 +1064,8 @@ func run(c *mc.Ctx) {
 		{"size2_U2", pU2, 2},
 		{"size3_U2half", pH46, 3},
 		{"size3_S40", pS40, 3},
+		{"size2_UC", pUC, 2},
+		{"size3_UCthird", pUC23, 3},
 	}
 	if c.Thorough() {
 		c.Extra("sub_universe_S30", s30)
